@@ -149,10 +149,7 @@ func runConc(c ConcCase) (st concStats, v *Violation) {
 	closed := false
 	defer func() {
 		if !closed {
-			func() {
-				defer func() { recover() }()
-				s.Close()
-			}()
+			closeQuietly(s)
 		}
 	}()
 	// Sequential prefix against the map model.
@@ -524,6 +521,43 @@ func runConc(c ConcCase) (st concStats, v *Violation) {
 	closed = true
 	if err := s.Close(); err != nil {
 		return st, viol("concurrent-error|close|"+errClass(err)+"|after-quiescence", 0, "Close returned %v", err)
+	}
+	// Cold read-back: the just-flushed pools can hide damage done to the
+	// files (a record list truncated under a flush is still served from
+	// memory). After all activity stopped, the reopened store must show
+	// exactly what the final reads showed.
+	s2, err := openStore(dir, c.Cfg)
+	if err != nil {
+		return st, viol("reopen-after-quiescence|open|"+errClass(err)+"|after-quiescence", 0, "reopen after the concurrent phase failed: %v", err)
+	}
+	defer closeQuietly(s2)
+	keyCtx := func(k int) string {
+		ctx := "after-quiescence"
+		for i, a := range hist {
+			for _, b := range hist[i+1:] {
+				if a.Task != b.Task && a.Key == b.Key && a.Mutating && b.Mutating && overlap(a, b) &&
+					bucketOf(c.Keys[a.Key].Digest, c.Cfg.Bits) == bucketOf(c.Keys[k].Digest, c.Cfg.Bits) {
+					ctx = "same-key-writers-overlap"
+				}
+			}
+		}
+		for _, h := range hist {
+			if h.Kind != opFlush && h.Kind != opPGC && h.Kind != opIGC && hasGC && supersededDuringOpWithPGC(h) &&
+				bucketOf(c.Keys[h.Key].Digest, c.Cfg.Bits) == bucketOf(c.Keys[k].Digest, c.Cfg.Bits) {
+				ctx = "superseded-during-op-with-pgc"
+			}
+		}
+		return ctx
+	}
+	for k, ks := range c.Keys {
+		got, found, err := s2.Get(ks.Encode(c.Cfg.Primary, false))
+		if err != nil {
+			return st, viol("reopen-after-quiescence|get|"+errClass(err)+"|"+keyCtx(k), k, "after close and reopen Get(key %x) returned %v", ks.Digest, err)
+		}
+		f := finals[k]
+		if found != f.Found || (found && !bytes.Equal(got, f.Out)) {
+			return st, viol("reopen-after-quiescence|get|differs-from-final-read|"+keyCtx(k), k, "after close and reopen Get(key %x) = (%s, %v), the final read before Close returned (%s, %v)", ks.Digest, shortBytes(got), found, shortBytes(f.Out), f.Found)
+		}
 	}
 	return st, nil
 }
